@@ -159,6 +159,15 @@ func (s *Solver) emit(t *Term) {
 	s.send(fmt.Sprintf("(define-fun t%d () %s %s)", t.ID, t.Sort, defBody(t)))
 }
 
+// Assert adds a permanent constraint.
+func (s *Solver) Assert(t *Term) {
+	if t.IsConst() && t.B {
+		return
+	}
+	s.emit(t)
+	s.send("(assert " + refName(t) + ")")
+}
+
 type SatResult int
 
 const (
@@ -187,7 +196,11 @@ func (s *Solver) Check(conj []*Term) SatResult {
 		}
 	}
 	start := time.Now()
-	s.send("(check-sat-assuming (" + strings.Join(names, " ") + "))")
+	if len(names) == 0 {
+		s.send("(check-sat)")
+	} else {
+		s.send("(check-sat-assuming (" + strings.Join(names, " ") + "))")
+	}
 	var res SatResult
 	for {
 		l := s.readLine()
